@@ -135,6 +135,44 @@ theorem removeLeadingZero_spec (s : Option Bool) {I : List Char} (hI : AllDigits
       | some b => cases b <;> (simp [sgnText, removeLeadingZero, hd2d] <;> try (split <;> rfl))
 open EsbuildModel.NumText EsbuildModel.Spec.Num
 
+theorem noE_sgnText (s : Option Bool) : ∀ c ∈ sgnText s, ¬ (c = 'e' ∨ c = 'E') := by
+  cases s with
+  | none => simp [sgnText]
+  | some b => cases b <;> simp [sgnText] <;> decide
+
+theorem noE_digits {D : List Char} (hD : AllDigits D) : ∀ c ∈ D, ¬ (c = 'e' ∨ c = 'E') := by
+  intro c hc h
+  have := hD c hc
+  rcases h with rfl | rfl <;> revert this <;> decide
+open EsbuildModel.NumText EsbuildModel.Spec.Num
+
+/-- `strings.ContainsAny(t, "eE")` on a rendered number text: exactly when there is an exponent part -/
+theorem hasE_render (s : Option Bool) (p : DecParts) (hw : p.WF) :
+    (sgnText s ++ p.render).any (fun c => decide (c = 'e' ∨ c = 'E')) = p.exp.isSome := by
+  obtain ⟨I, fo, eo⟩ := p
+  cases eo with
+  | some x =>
+    simp only [Option.isSome_some]
+    rw [List.any_eq_true]
+    refine ⟨if x.upper then 'E' else 'e', ?_, by cases x.upper <;> simp⟩
+    simp [DecParts.render, expText]
+  | none =>
+    simp only [Option.isSome_none]
+    rw [List.any_eq_false]
+    intro c hc
+    simp only [DecParts.render, expText, List.append_nil, List.mem_append] at hc
+    simp only [decide_eq_true_eq]
+    rcases hc with hc | hc | hc
+    · exact noE_sgnText s c hc
+    · exact noE_digits hw.int c hc
+    · cases fo with
+      | none => simp [fracText] at hc
+      | some f =>
+        simp only [fracText, List.mem_cons] at hc
+        rcases hc with rfl | hc
+        · decide
+        · exact noE_digits (hw.frac f rfl) c hc
+
 theorem dot_not_mem_sgnText (s : Option Bool) : '.' ∉ sgnText s := by
   cases s with
   | none => simp [sgnText]
@@ -174,14 +212,13 @@ theorem expText_getLast {x : ExpPart} (hne : x.digits ≠ []) :
   have h2 := this ((if x.upper then 'E' else 'e') :: x.sign.text)
   simpa [expText] using h2
 
-/-- `mangleNumber` on a well-formed number text in terms of its pieces.  The exponent digits must not end
-with '0': the trailing-zero loop of the Go code does not stop at the exponent. -/
-theorem mangleNumber_value (s : Option Bool) (p : DecParts) (hw : p.WF) (hv : p.cssValid = true)
-    (hexp : ∀ x, p.exp = some x → x.digits.getLast? ≠ some '0') :
+/-- `mangleNumber` on a well-formed number text in terms of its pieces (any sign, fraction, exponent). -/
+theorem mangleNumber_value (s : Option Bool) (p : DecParts) (hw : p.WF) (hv : p.cssValid = true) :
     cssValue (mangleNumber (sgnText s ++ p.render)).1 = some (applySign s p.mv) := by
   obtain ⟨I, fo, eo⟩ := p
+  have hhasE := hasE_render s ⟨I, fo, eo⟩ hw
   obtain ⟨hI, hF, hE⟩ := hw
-  simp only at hI hF hE hexp
+  simp only at hI hF hE hhasE
   cases fo with
   | none =>
     have hnodot : '.' ∉ sgnText s ++ (⟨I, none, eo⟩ : DecParts).render := by
@@ -198,12 +235,16 @@ theorem mangleNumber_value (s : Option Bool) (p : DecParts) (hw : p.WF) (hv : p.
       exact ⟨dot_not_mem_sgnText s, not_mem_of_allDigits hI (by decide)⟩
     -- the text after trailing-zero removal: `Pre.F'E` with F = F' ++ zeros
     have key : ∃ F' k, F = F' ++ List.replicate k '0' ∧
-        dropTrailingZeros (sgnText s ++ (⟨I, some F, eo⟩ : DecParts).render)
+        (if (sgnText s ++ (⟨I, some F, eo⟩ : DecParts).render).any (fun c => decide (c = 'e' ∨ c = 'E')) = true
+          then sgnText s ++ (⟨I, some F, eo⟩ : DecParts).render
+          else dropTrailingZeros (sgnText s ++ (⟨I, some F, eo⟩ : DecParts).render))
           = (sgnText s ++ I) ++ '.' :: (F' ++ expText eo) ∧ (F' = [] → eo = none) := by
       cases eo with
       | none =>
         obtain ⟨F', k, hFk, hlast⟩ := exists_zeros_suffix F
         refine ⟨F', k, hFk, ?_, fun _ => rfl⟩
+        rw [hhasE]
+        simp only [Option.isSome_none, Bool.false_eq_true, if_false]
         have : sgnText s ++ (⟨I, some F, none⟩ : DecParts).render
             = ((sgnText s ++ I) ++ '.' :: F') ++ List.replicate k '0' := by
           simp [DecParts.render, fracText, expText, hFk]
@@ -215,17 +256,8 @@ theorem mangleNumber_value (s : Option Bool) (p : DecParts) (hw : p.WF) (hv : p.
           | some c => rw [h] at hlast; simpa using hlast
       | some x =>
         refine ⟨F, 0, by simp, ?_, fun h => absurd h hFne⟩
-        have hxne := (hE x rfl).2
-        rw [dropTrailingZeros_of_last]
-        · simp [DecParts.render, fracText]
-        · have : (sgnText s ++ (⟨I, some F, some x⟩ : DecParts).render).getLast? = (expText (some x)).getLast? := by
-            simp only [DecParts.render, ← List.append_assoc]
-            rw [List.getLast?_append]
-            cases h : (expText (some x)).getLast? with
-            | none => simp [expText] at h
-            | some c => simp
-          rw [this, expText_getLast hxne]
-          exact hexp x rfl
+        rw [hhasE]
+        simp [DecParts.render, fracText]
     obtain ⟨F', k, hFk, hdrop, hF'⟩ := key
     have hF'd : AllDigits F' := by rw [hFk, allDigits_append] at hFd; exact hFd.1
     have hidx : indexOf '.' (sgnText s ++ (⟨I, some F, eo⟩ : DecParts).render) = some (sgnText s ++ I).length := by
@@ -360,17 +392,6 @@ theorem stripLeading_fst_length_le (D : List Char) (d : Int) : (stripLeading D d
     · have := ih (d - 1); simp only [List.length_cons]; omega
     · exact Nat.le_refl _
 
-theorem noE_sgnText (s : Option Bool) : ∀ c ∈ sgnText s, ¬ (c = 'e' ∨ c = 'E') := by
-  cases s with
-  | none => simp [sgnText]
-  | some b => cases b <;> simp [sgnText] <;> decide
-
-theorem noE_digits {D : List Char} (hD : AllDigits D) : ∀ c ∈ D, ¬ (c = 'e' ∨ c = 'E') := by
-  intro c hc h
-  have := hD c hc
-  rcases h with rfl | rfl <;> revert this <;> decide
-open EsbuildModel.NumText EsbuildModel.Spec.Num
-
 theorem applySign_mul (s : Option Bool) (v x : Rat) : applySign s (v * x) = applySign s v * x := by
   unfold applySign
   split
@@ -387,7 +408,8 @@ theorem shiftDot_prefix (s : Option Bool) {I : List Char} (fo : Option (List Cha
        let d1 := (stripLeading D d).2
        let D2 := (stripTrailingRev D1.reverse d1).reverse
        if d1 ≥ (D2.length : Int) then
-         some (sgnText s ++ D2 ++ List.replicate (d1 - (D2.length : Int)).toNat '0')
+         if d1 = 0 then some (sgnText s ++ ['0'])
+         else some (sgnText s ++ D2 ++ List.replicate (d1 - (D2.length : Int)).toNat '0')
        else
          let D3 := if d1 < 0 then List.replicate (-d1).toNat '0' ++ D2 else D2
          let d3 := if d1 < 0 then 0 else d1.toNat
@@ -441,10 +463,9 @@ theorem shiftDot_prefix (s : Option Bool) {I : List Char} (fo : Option (List Cha
   simp only [hany, Bool.false_eq_true, if_false, hsign, hdrop, hdot.1, hdot.2]
 open EsbuildModel.NumText EsbuildModel.Spec.Num
 
-/-- `shiftDot` multiplies the value by `10^k`, for every non-zero number text without exponent and every k. -/
+/-- `shiftDot` multiplies the value by `10^k`, for every number text without exponent (zero included) and every k. -/
 theorem shiftDot_value (s : Option Bool) {I : List Char} (fo : Option (List Char)) (hI : AllDigits I)
-    (hF : ∀ f, fo = some f → AllDigits f) (hv : (⟨I, fo, none⟩ : DecParts).cssValid = true) (k : Int)
-    (hnz : digitsMV (I ++ fo.getD []) ≠ 0) :
+    (hF : ∀ f, fo = some f → AllDigits f) (hv : (⟨I, fo, none⟩ : DecParts).cssValid = true) (k : Int) :
     ∃ out, shiftDot (sgnText s ++ (⟨I, fo, none⟩ : DecParts).render) k = some out ∧
       cssValue out = some (applySign s (⟨I, fo, none⟩ : DecParts).mv * (10 : Rat) ^ k) := by
   have hFd : AllDigits (fo.getD []) := by
@@ -454,7 +475,7 @@ theorem shiftDot_value (s : Option Bool) {I : List Char} (fo : Option (List Char
   rw [shiftDot_prefix s fo hI hF hv k]
   simp only
   have hD : AllDigits (I ++ fo.getD []) := allDigits_append.mpr ⟨hI, hFd⟩
-  generalize hDdef : I ++ fo.getD [] = D at hD hnz
+  generalize hDdef : I ++ fo.getD [] = D at hD
   -- the target value in terms of `dval`
   have htarget : applySign s (⟨I, fo, none⟩ : DecParts).mv * (10 : Rat) ^ k
       = applySign s (dval D ((I.length : Int) + k)) := by
@@ -476,27 +497,41 @@ theorem shiftDot_value (s : Option Bool) {I : List Char} (fo : Option (List Char
   have hD2 : AllDigits D2 := by
     rw [← hD2def]; intro c hc; exact hR2 c (List.mem_reverse.mp hc)
   rw [← hv1, ← hv2]
-  have hnz2 : digitsMV D2 ≠ 0 := by
-    intro h0
-    have h1 : dval D2 d1 = 0 := by unfold dval; rw [h0]; exact dec_eq_zero.mpr rfl
-    rw [hv2, hv1] at h1
-    unfold dval at h1
-    exact hnz (dec_eq_zero.mp h1)
-  have hD2ne : D2 ≠ [] := by intro h; rw [h] at hnz2; exact hnz2 rfl
   split
   · rename_i hge
     -- no fractional component
-    refine ⟨_, rfl, ?_⟩
-    have hq : (⟨D2 ++ List.replicate (d1 - (D2.length : Int)).toNat '0', none, none⟩ : DecParts).WF :=
-      ⟨allDigits_append.mpr ⟨hD2, allDigits_replicate_zero _⟩, by simp, by simp⟩
-    have := cssValue_render s _ hq (by simp [DecParts.cssValid, hD2ne])
-    simp only [DecParts.render, fracText, expText, List.append_nil] at this
-    rw [List.append_assoc, this, mv_eq_dec]
-    simp only [Option.getD_none, List.append_nil, List.length_nil, expVal]
-    rw [digitsMV_append_zeros, dec_shift]
-    unfold dval
-    congr 3
-    omega
+    split
+    · rename_i hd0
+      -- all digits were zeros and have been removed
+      refine ⟨_, rfl, ?_⟩
+      have hD2nil : D2 = [] := by
+        have : D2.length = 0 := by omega
+        exact List.length_eq_zero_iff.mp this
+      have hq : (⟨['0'], none, none⟩ : DecParts).WF :=
+        ⟨by intro c hc; simp at hc; rw [hc]; decide, by simp, by simp⟩
+      have := cssValue_render s _ hq (by simp [DecParts.cssValid])
+      simp only [DecParts.render, fracText, expText, List.append_nil] at this
+      rw [this, mv_eq_dec, hD2nil, hd0]
+      simp only [Option.getD_none, List.append_nil, List.length_nil, expVal, digitsMV_zero_cons]
+      unfold dval
+      rfl
+    · rename_i hd0
+      refine ⟨_, rfl, ?_⟩
+      have hne : D2 ++ List.replicate (d1 - (D2.length : Int)).toNat '0' ≠ [] := by
+        intro h
+        have := congrArg List.length h
+        simp only [List.length_append, List.length_replicate, List.length_nil] at this
+        omega
+      have hq : (⟨D2 ++ List.replicate (d1 - (D2.length : Int)).toNat '0', none, none⟩ : DecParts).WF :=
+        ⟨allDigits_append.mpr ⟨hD2, allDigits_replicate_zero _⟩, by simp, by simp⟩
+      have := cssValue_render s _ hq (by simp only [DecParts.cssValid]; simpa using hne)
+      simp only [DecParts.render, fracText, expText, List.append_nil] at this
+      rw [List.append_assoc, this, mv_eq_dec]
+      simp only [Option.getD_none, List.append_nil, List.length_nil, expVal]
+      rw [digitsMV_append_zeros, dec_shift]
+      unfold dval
+      congr 3
+      omega
   · rename_i hlt
     refine ⟨_, rfl, ?_⟩
     -- the padded digits and the final dot position
@@ -510,7 +545,6 @@ theorem shiftDot_value (s : Option Bool) {I : List Char} (fo : Option (List Char
       rw [← hD3def, ← hd3def]
       split
       · simp only [List.length_append, List.length_replicate]
-        have := List.length_pos_iff.mpr hD2ne
         omega
       · omega
     have hval3 : dval D3 (d3 : Int) = dval D2 d1 := by
